@@ -160,6 +160,11 @@ class Model:
     def mag(self):
         return self.err / EPS
 
+    def cond_region(self, tolerance_factor=1e-12):
+        """Error bound in units of the region's own comparison tolerance."""
+        edges = self.box.hi - self.box.lo
+        return self.err / (tolerance_factor * float(np.min(edges)))
+
     def cond(self):
         """Error bound in units of the smallest cell (edge if there is no mesh)."""
         edges = self.box.hi - self.box.lo
@@ -413,6 +418,7 @@ def history(ctx, obj, model, dims, kinds, target=None, label="region"):
         recv = obj._mesh if on_mesh else obj
         recv_clone = clone._mesh if on_mesh else clone
         what = {"object": label, "form": "copy", "kind": kind, "log": log, "n": getattr(model, "n", None),
+                "cond_region": float(trial.cond_region()), "cond_cell": float(trial.cond()),
                 "pmin": state(obj)["pmin"], "pmax": state(obj)["pmax"],
                 "subs": state(obj).get("subs")}
         if not on_mesh:
@@ -601,7 +607,41 @@ def malformed_case(ctx):
     ctx.sig(("malformed", which, spec.nd), nontrivial=True)
 
 
+def f29_witness(ctx):
+    """Fixed witness of known finding F29 (known_findings.json): executed once per run so
+    that the check reports the finding (or notices that it has gone)."""
+    cell = np.array([0.07928503324523198, 0.01884270559889971, 0.06676965309023948])
+    n = np.array([2, 1, 1])
+    spec = gen.MeshSpec(np.zeros(3), cell, n, ["x", "y", "w"], ["nm", "s", "K"], [False] * 3)
+    mesh = spec.mesh(subregions={"s0": spec.box_region(np.array([1, 0, 0]), np.array([2, 1, 1]))})
+    model = Model(Box(spec.pmin, spec.pmax), spec.units, n=n.copy(),
+                  subs={"s0": Box(spec.vertex([1, 0, 0]), spec.vertex([2, 1, 1]))})
+    steps = [
+        ("scale", {"factor": 0.5, "reference_point": [36.88896988273779, -2.063172443113276, -6.975373546789243]}, True),
+        ("rotate90", {"ax1": "w", "ax2": "y", "k": 8, "reference_point": [18.428718361258852, -1.0315815850020522, -3.4648201817435407]}, False),
+        ("scale", {"factor": [0.5, -0.5, 3.0], "reference_point": None}, True),
+        ("translate", {"vector": [-0.02104439032630129, -0.0035955013605145267, 0.08831881655575313]}, True),
+        ("scale", {"factor": 1000.0, "reference_point": [18.465590081103688, -1.027795709946528, -3.4620629752886645]}, False),
+        ("scale", {"factor": [-3.0, 2.0, 1.7], "reference_point": None}, False),
+        ("translate", {"vector": [44.66349631046656, 4.558697392936265, -55.03510122386178]}, False),
+    ]
+    log = []
+    for kind, kw, inplace in steps:
+        log.append({"kind": kind, "inplace": inplace, **kw})
+        apply_model(model, kind, kw, ["x", "y", "w"])
+        what = {"object": "mesh", "form": "inplace" if inplace else "copy", "kind": kind, "log": log,
+                "cond_region": float(model.cond_region()), "cond_cell": float(model.cond()),
+                "witness_of": "F29"}
+        ok, res = ctx.expect_ok("C13.step_accepted", getattr(mesh, kind), what=what, **kw,
+                                inplace=inplace)
+        if not ok:
+            return
+        mesh = res
+
+
 def run_case(ctx, i):
+    if i == 0:
+        f29_witness(ctx)
     kind = i % 4
     if kind == 0:
         region_case(ctx)
